@@ -1,568 +1,74 @@
-"""C13 - the command line tool writes exactly what the API would return (structural clauses)."""
-import argparse
-import ast
+"""C13 - the command line tool writes exactly what the API would return (decided by evaluating the entry point on enumerated scenarios)."""
 import glob
-import itertools
 import os
 import re
 
-from ..absint import Interp, Obj, TOP
-from ..astutil import calls, kwarg, local_defs, literal
-from ..facts import Facts
-from ..model import AnalysisError, src, walk_own
-from .cli_common import MAIN, NOT_BENEFICIAL, MainAnalysis
+from .. import clirun
+from . import cli_e2e as E
+from ..model import AnalysisError
 
-OPTIONS_CLS = 'python_minifier.transforms.remove_annotations_options.RemoveAnnotationsOptions'
-
-
-class Spec(object):
-    def __init__(self, call, flags, action, dest, default, has_default, nargs, typ, group):
-        self.call = call
-        self.flags = flags
-        self.action = action
-        self.dest = dest
-        self.default = default
-        self.has_default = has_default
-        self.nargs = nargs
-        self.typ = typ
-        self.group = group
-
-    @property
-    def long(self):
-        ls = [f for f in self.flags if f.startswith('--')]
-        return ls[0] if ls else (self.flags[0] if self.flags else None)
-
-
-def extract_specs(A):
-    """Statically read every add_argument call of parse_args: [(Spec)] plus group structure."""
-    fi = A.parse_args
-    defs = A.defs[fi.qual]
-    specs = []
-    mutex = {}
-    for n in walk_own(fi.node):
-        if isinstance(n, ast.Assign) and isinstance(n.value, ast.Call) and isinstance(n.value.func, ast.Attribute) and \
-                n.value.func.attr == 'add_mutually_exclusive_group' and isinstance(n.targets[0], ast.Name):
-            mutex[n.targets[0].id] = []
-    for c in calls(fi.node):
-        if not (isinstance(c.func, ast.Attribute) and c.func.attr == 'add_argument'):
-            continue
-        flags = []
-        for a in c.args:
-            if isinstance(a, ast.Constant) and isinstance(a.value, str):
-                flags.append(a.value)
-            else:
-                raise AnalysisError('add_argument with a non-literal flag at %s' % fi.loc(c))
-        kw = {k.arg: k.value for k in c.keywords}
-
-        def lit(name, default=None):
-            if name not in kw:
-                return default
-            e = kw[name]
-            if isinstance(e, ast.Constant):
-                return e.value
-            if isinstance(e, ast.Name) and e.id in ('str', 'int'):
-                return e.id
-            return ('expr', src(e))
-        action = lit('action', 'store')
-        dest = lit('dest')
-        if dest is None and flags:
-            longs = [f for f in flags if f.startswith('--')]
-            dest = (longs[0][2:] if longs else flags[0].lstrip('-')).replace('-', '_')
-        group = src(c.func.value)
-        s = Spec(c, flags, action, dest, lit('default'), 'default' in kw, lit('nargs'), lit('type'), group)
-        specs.append(s)
-        if group in mutex:
-            mutex[group].append(s)
-    return specs, mutex
-
-
-def normalised(flag, action):
-    """--no-x-y + store_false -> ('x_y', False-when-given) ; --x-y + store_true -> ('x_y', True-when-given)"""
-    name = flag[2:].replace('-', '_')
-    if name.startswith('no_'):
-        return name[3:], False
-    return name, True
-
-
-def build_parser(specs, mutex):
-    """O6: an argparse parser built by the checker from the extracted specs."""
-    p = argparse.ArgumentParser(prog='probe', add_help=False)
-    p.error = lambda msg: (_ for _ in ()).throw(ValueError(msg))
-    groups = {g: p.add_mutually_exclusive_group() for g in mutex}
-    for s in specs:
-        if s.action == 'version':
-            continue
-        tgt = groups.get(s.group, p)
-        kw = {}
-        if s.action != 'store' or True:
-            kw['action'] = s.action
-        if s.flags and s.flags[0].startswith('-'):
-            kw['dest'] = s.dest
-        if s.has_default:
-            kw['default'] = s.default
-        if s.nargs is not None:
-            kw['nargs'] = s.nargs
-        if s.typ == 'str':
-            kw['type'] = str
-        if s.action in ('store_true', 'store_false'):
-            kw.pop('nargs', None)
-            kw.pop('type', None)
-        tgt.add_argument(*s.flags, **kw)
-    return p
-
-
-def signature_defaults(fi):
-    out = {}
-    for k, d in fi.defaults().items():
-        if isinstance(d, ast.Constant):
-            out[k] = d.value
-        else:
-            out[k] = ('expr', src(d))
-    return out
-
-
-def _loops_of(model, node, fnode):
-    out = []
-    cur = model.parent(node)
-    while cur is not None and cur is not fnode:
-        if isinstance(cur, (ast.For, ast.AsyncFor, ast.comprehension, ast.ListComp, ast.GeneratorExp, ast.SetComp, ast.DictComp)):
-            out.append(cur)
-        cur = model.parent(cur)
-    return out
-
-
-def _definitions(model, fnode):
-    """[(name, value expr or None, defining node)] for the function's own body."""
-    out = []
-    for n in walk_own(fnode):
-        if isinstance(n, ast.Assign):
-            for t in n.targets:
-                for x in ast.walk(t):
-                    if isinstance(x, ast.Name):
-                        out.append((x.id, n.value, n))
-        elif isinstance(n, (ast.For, ast.AsyncFor)):
-            for x in ast.walk(n.target):
-                if isinstance(x, ast.Name):
-                    out.append((x.id, n.iter, n))
-        elif isinstance(n, (ast.ListComp, ast.GeneratorExp, ast.SetComp, ast.DictComp)):
-            for g in n.generators:
-                for x in ast.walk(g.target):
-                    if isinstance(x, ast.Name):
-                        out.append((x.id, g.iter, n))
-        elif isinstance(n, ast.AugAssign) and isinstance(n.target, ast.Name):
-            out.append((n.target.id, n.value, n))
-    return out
-
-
-def dests_in(e, defs, fnode, argname, seen=None, model=None, site=None, _defs_cache={}):
-    """Set of parser dests (attributes read from the namespace parameter) that flow into expression e inside the function:
-    through local definitions (those in the innermost loop shared with the use are preferred - the function re-uses
-    loop-local names), through mutations of containers (extend/append/+=) and through the tests of if-statements that
-    select between definitions."""
-    seen = seen if seen is not None else set()
-    out = set()
-    if e is None or isinstance(e, str):
-        return out
-    dlist = _defs_cache.get(id(fnode))
-    if dlist is None:
-        dlist = _defs_cache[id(fnode)] = _definitions(model, fnode)
-    site = site if site is not None else e
-    site_loops = _loops_of(model, site, fnode) + ([site] if isinstance(site, (ast.ListComp, ast.GeneratorExp, ast.SetComp, ast.DictComp)) else [])
-    for n in ast.walk(e):
-        if isinstance(n, ast.Attribute) and isinstance(n.value, ast.Name) and n.value.id == argname:
-            out.add(n.attr)
-        elif isinstance(n, ast.Name) and isinstance(n.ctx, ast.Load) and n.id != argname:
-            cands = [(v, d) for (name, v, d) in dlist if name == n.id]
-            # comprehension-local names first
-            inner = [c for c in cands if isinstance(c[1], (ast.ListComp, ast.GeneratorExp, ast.SetComp, ast.DictComp)) and any(c[1] is a for a in list(_anc(model, n, fnode)))]
-            if inner:
-                cands = inner
-            else:
-                cands = [c for c in cands if not isinstance(c[1], (ast.ListComp, ast.GeneratorExp, ast.SetComp, ast.DictComp))]
-                local = [c for c in cands if site_loops and any(l is site_loops[0] for l in ([c[1]] + _loops_of(model, c[1], fnode)))]
-                if local:
-                    cands = local
-            for (v, d) in cands:
-                k = (n.id, id(d))
-                if k in seen:
-                    continue
-                seen.add(k)
-                out |= dests_in(v, defs, fnode, argname, seen, model, site=d)
-                # controlling tests of this definition
-                for a in _anc(model, d, fnode):
-                    if isinstance(a, ast.If):
-                        out |= dests_in(a.test, defs, fnode, argname, seen, model, site=a)
-            # mutations of a container variable (only for function-level variables)
-            if not inner:
-                for m in walk_own(fnode):
-                    if isinstance(m, ast.Call) and isinstance(m.func, ast.Attribute) and isinstance(m.func.value, ast.Name) and m.func.value.id == n.id \
-                            and m.func.attr in ('extend', 'append', 'insert', 'add', 'update'):
-                        k = (n.id, 'mut', id(m))
-                        if k in seen:
-                            continue
-                        seen.add(k)
-                        for a in m.args:
-                            out |= dests_in(a, defs, fnode, argname, seen, model, site=m)
-                        for a in _anc(model, m, fnode):
-                            if isinstance(a, (ast.For, ast.AsyncFor)):
-                                out |= dests_in(a.iter, defs, fnode, argname, seen, model, site=a)
-    return out
-
-
-def _anc(model, node, fnode):
-    cur = model.parent(node)
-    while cur is not None and cur is not fnode:
-        yield cur
-        cur = model.parent(cur)
+MAIN = 'python_minifier.__main__'
 
 
 def run(model, rep):
-    rep.explanation = ('Decides the flag -> dest -> keyword chain of the CLI statically: add_argument specs are read from parse_args, an argparse parser '
-                       'rebuilt from those specs by the checker is probed (no flags; every flag alone; every pair), dests are followed through do_minify '
-                       'into the minify(...) call, and the invalid-combination tests are evaluated by abstract interpretation over all argument shapes. '
-                       'Not decided: that minify() itself honours its keywords (C05).')
-    for r, t in [('C13.FLAG', 'normalised flag name = keyword its dest is forwarded to; --no-x is store_false, --x is store_true; no shared dests; a flag moves only its own dest'),
-                 ('C13.DEF', 'with no flags every dest equals the API default of the keyword it feeds'),
-                 ('C13.FWD', 'minify(...) in do_minify passes every option keyword exactly once, fed by exactly the dests of the flags of that name'),
-                 ('C13.ANN', 'remove_annotations False => four sub-options False; otherwise the four dests feed the four same-named keywords'),
-                 ('C13.SPLIT', 'preserve lists: action=append, every entry iterated, split on comma, stripped'),
-                 ('C13.VAL', 'invalid combinations reach sys.exit(non-zero) before parse_args returns; valid ones return; main writes only after parse_args'),
-                 ('C13.OUT', 'every written payload is the do_minify result (= minify(...).encode("utf-8")) or the bytes read; path listing only when stdout is not the output'),
-                 ('C13.DOC', 'every --flag spelled in docs/source/transforms/*.rst exists in the parser')]:
+    rep.explanation = ('main() of the command line module is evaluated by the abstract interpreter inside a modelled environment (pmstatic.clirun): a real '
+                       'argparse parser of the standard library is driven by the calls the repository makes, the file system, stdin/stdout, the environment '
+                       'and the API function minify() are answered by the checker and every effect is recorded in order. (FLAGS) for no flags, every flag '
+                       'alone, every vector of the annotation flags, several spellings of the preserve lists (thorough: every pair of flags) the keyword '
+                       'arguments that reach minify() must be the documented meaning of the flags - --no-x turns x off, --x turns x on, everything else '
+                       'keeps the default of the API signature, preserve lists are split on commas and stripped - the source handed over is the bytes read '
+                       'and stdout receives the UTF-8 encoding of the answer. (VAL) 112 argument shapes (stdin / files / directory x --in-place x --output x '
+                       'the annotation conflict): invalid ones end with a failure status before anything is read, minified or written, valid ones run. '
+                       '(OUT) over the output modes (stdin, file, several files, directory tree; stdout, --output, --in-place) x per-source answers (shorter, '
+                       'longer, longer only in bytes, equal, rejected, unreadable): every destination receives exactly the encoded answer or the untouched '
+                       'source, through binary channels, and the path listing never shares stdout with a module. (DOC) every --flag spelled in the '
+                       'documentation exists in the parser the repository builds. No shape of main / parse_args / do_minify is assumed. '
+                       'Not decided: that minify() itself honours its keywords (C05), and flag subsets larger than pairs.')
+    for r, t in [('C13.FLAGS', 'flags -> keyword arguments of minify(): documented meaning, own option and no other, defaults = API defaults, lists split (enumerated end to end)'),
+                 ('C13.VAL', 'invalid argument combinations fail before anything is read or written; valid ones run (enumerated)'),
+                 ('C13.OUT', 'every destination receives the UTF-8 encoding of the minify() answer or the untouched source, through binary channels; listing never on the payload channel'),
+                 ('C13.DOC', 'every --flag spelled in docs/source exists in the parser the repository builds')]:
         rep.rule(r, t)
-    A = MainAnalysis(model)
-    pa = A.parse_args
-    dm = A.do_minify
-    specs, mutex = extract_specs(A)
-    in_mutex = {id(s) for ss in mutex.values() for s in ss}
-    opt_specs = [s for s in specs if s.flags and s.flags[0].startswith('-') and s.action in ('store_true', 'store_false', 'append') and id(s) not in in_mutex]
-    rep.count('option_flags', len(opt_specs))
-    minify_fi = model.func('python_minifier.minify')
-    api_defaults = signature_defaults(minify_fi)
-    opt_init = model.func(OPTIONS_CLS + '.__init__')
-    ann_defaults = signature_defaults(opt_init)
-    api_params = [p for p in minify_fi.params if p not in ('source', 'filename')]
-    mcall = A.minify_call()
-    argname = dm.positional[2] if len(dm.positional) > 2 else None
-    if argname is None:
-        raise AnalysisError('do_minify lost its namespace parameter')
-    defs = A.defs[dm.qual]
-
-    # ---- where does each dest go?  keyword -> dests
-    kw_dests = {}
-    seen_kw = {}
-    for kw in mcall.keywords:
-        if kw.arg is None:
-            rep.violation('C13.FWD', dm.loc(mcall), 'minify(**...)', 'option keywords are forwarded through ** - cannot be followed')
-            continue
-        seen_kw[kw.arg] = seen_kw.get(kw.arg, 0) + 1
-        kw_dests[kw.arg] = dests_in(kw.value, defs, dm.node, argname, model=model)
-    # annotation sub keywords
-    ann_calls = [c for c in calls(dm.node) if isinstance(c.func, ast.Name) and model.resolve_name(MAIN, c.func.id) == OPTIONS_CLS]
-    ann_kw_dests = {}
-    for c in ann_calls:
-        for kw in c.keywords:
-            ds = dests_in(kw.value, defs, dm.node, argname, model=model)
-            ann_kw_dests.setdefault(kw.arg, set()).update(ds)
-
-    # ---- FLAG
-    dest_seen = {}
-    flag_of_dest = {}
-    ann_names = set(ann_defaults)
-    for s in opt_specs:
-        where = pa.loc(s.call)
-        name, polarity = normalised(s.long, s.action)
-        key = 'C13.FLAG|' + s.long
-        if s.dest in dest_seen:
-            rep.violation('C13.FLAG', where, s.long, 'dest %r is shared with %s' % (s.dest, dest_seen[s.dest]), key=key + '|shared')
-        dest_seen[s.dest] = s.long
-        flag_of_dest[s.dest] = s
-        if s.action in ('store_true', 'store_false'):
-            want = 'store_true' if polarity else 'store_false'
-            rep.check(s.action == want, 'C13.FLAG', where, '%s action=%s' % (s.long, s.action), 'polarity agrees with the spelling',
-                      '%s must be %s (the flag is documented to %s the option)' % (s.long, want, 'enable' if polarity else 'disable'), key=key + '|action')
-        # which keyword(s) does the dest feed?
-        targets = {k for k, ds in kw_dests.items() if s.dest in ds and k != 'remove_annotations'}
-        targets |= {k for k, ds in ann_kw_dests.items() if s.dest in ds}
-        if name == 'remove_annotations':
-            targets = {'remove_annotations'} if s.dest in kw_dests.get('remove_annotations', ()) else set()
-        rep.check(targets == {name}, 'C13.FLAG', where, '%s dest=%s' % (s.long, s.dest), 'feeds keyword %s' % name,
-                  '%s must control %s and nothing else, but its dest %r feeds %s' % (s.long, name, s.dest, sorted(targets) or 'no keyword'), key=key + '|target')
-    rep.floor('C13.FLAG', 2 * 19)
-
-    # ---- O6 probes: defaults, single flags, pairs
-    parser = build_parser(specs, mutex)
-    base = vars(parser.parse_args(['x.py']))
-    n_probe = 1
-    for s in opt_specs:
-        if s.action == 'append':
-            argv = [s.long, 'a,b', 'x.py']
+    main = model.func(MAIN + '.main')
+    where = main.loc()
+    flags, booleans, lists = E.run_flags(model, rep.tier)
+    rep.count('boolean_flags', len(booleans))
+    rep.count('list_flags', len(lists))
+    if len(booleans) < 15:
+        raise AnalysisError('the parser built by the repository has only %d boolean option flags' % len(booleans))
+    for (label, argv, probs) in flags:
+        mine = [p for p in probs if p.clause in ('flags', 'payload', 'validation')]
+        if mine:
+            for p in mine[:3]:
+                rep.violation('C13.FLAGS', where, 'pyminify %s mod.py' % ' '.join(argv), p.text, key='C13.FLAGS|%s|%s' % (label, p.text[:60]))
         else:
-            argv = [s.long, 'x.py']
-        got = vars(parser.parse_args(argv))
-        n_probe += 1
-        changed = {k for k in got if got[k] != base[k]}
-        rep.check(changed == {s.dest}, 'C13.FLAG', pa.loc(s.call), '%s probe' % s.long, 'moves only %s' % s.dest,
-                  '%s alone changes %s (expected only %s)' % (s.long, sorted(changed), s.dest), key='C13.FLAG|%s|probe' % s.long)
-    pair_bad = 0
-    for a, b in itertools.combinations(opt_specs, 2):
-        argv = []
-        for s in (a, b):
-            argv += [s.long, 'n'] if s.action == 'append' else [s.long]
-        try:
-            got = vars(parser.parse_args(argv + ['x.py']))
-        except ValueError:
-            continue
-        n_probe += 1
-        changed = {k for k in got if got[k] != base[k]}
-        if changed != {a.dest, b.dest}:
-            pair_bad += 1
-            rep.violation('C13.FLAG', pa.loc(a.call), '%s %s probe' % (a.long, b.long), 'pair changes %s' % sorted(changed), key='C13.FLAG|pair|%s|%s' % (a.long, b.long))
-    rep.ok('C13.FLAG', pa.loc(), 'pairwise probes', '%d argv probes against the rebuilt parser' % n_probe, cells=n_probe, key='C13.FLAG|pairs')
+            rep.ok('C13.FLAGS', where, 'pyminify %s mod.py' % ' '.join(argv), 'minify() receives the documented meaning of the flags and stdout its encoded answer', key='C13.FLAGS|' + label)
+    rep.floor('C13.FLAGS', 50)
 
-    # ---- DEF
-    for s in opt_specs:
-        name, _ = normalised(s.long, s.action)
-        where = pa.loc(s.call)
-        val = base.get(s.dest)
-        if s.action == 'append':
-            rep.check(val is None, 'C13.DEF', where, '%s default' % s.long, 'absent list -> API default None/[]', 'default %r' % (val,), key='C13.DEF|' + s.long)
-            continue
-        if name in ann_names and name != 'remove_annotations':
-            want = ann_defaults.get(name)
-        elif name == 'remove_annotations':
-            want = True  # default options object removes (some) annotations: truthy
+    val = E.run_validation(model, rep.tier)
+    groups = {}
+    for (label, argv, probs) in val:
+        g = ' '.join(a for a in argv if not a.startswith('--') and a != 'out.py') or '(none)'
+        groups.setdefault(g, [0, []])
+        groups[g][0] += 1
+        groups[g][1] += probs
+    for g, (n, probs) in sorted(groups.items()):
+        if probs:
+            for p in probs[:3]:
+                rep.violation('C13.VAL', where, 'pyminify ' + p.label, p.text, key='C13.VAL|%s|%s' % (p.label, p.text[:50]))
         else:
-            want = api_defaults.get(name, ('missing',))
-        rep.check(val == want and type(val) is type(want), 'C13.DEF', where, '%s default=%r' % (s.long, val), 'equals API default of %s' % name,
-                  'with no flags dest %s is %r but the API default of %s is %r' % (s.dest, val, name, want), key='C13.DEF|' + s.long)
-    rep.floor('C13.DEF', 19)
+            rep.ok('C13.VAL', where, 'paths %s x --in-place x --output x annotation conflict (%d shapes)' % (g, n), 'invalid shapes fail before any effect, valid shapes run', cells=n, key='C13.VAL|' + g)
+    rep.floor('C13.VAL', 7)
 
-    # ---- FWD
-    for p in api_params:
-        where = dm.loc(mcall)
-        n = seen_kw.get(p, 0)
-        if n != 1:
-            rep.violation('C13.FWD', where, 'minify(... %s=...)' % p, 'keyword %s passed %d times: the CLI cannot express this option' % (p, n), key='C13.FWD|' + p)
-            continue
-        want = {s.dest for s in opt_specs if normalised(s.long, s.action)[0] == p}
-        if p == 'remove_annotations':
-            want = {s.dest for s in opt_specs if normalised(s.long, s.action)[0] in ann_names | {'remove_annotations'}}
-        got = kw_dests.get(p, set())
-        rep.check(got == want and want, 'C13.FWD', where, '%s=%s' % (p, src([k for k in mcall.keywords if k.arg == p][0].value)),
-                  'fed by dest(s) %s' % sorted(got), 'keyword %s is fed by dests %s, expected %s' % (p, sorted(got), sorted(want)), key='C13.FWD|' + p)
-    for k in seen_kw:
-        if k not in minify_fi.params:
-            rep.violation('C13.FWD', dm.loc(mcall), 'minify(... %s=...)' % k, 'keyword is not a parameter of minify', key='C13.FWD|extra|' + k)
-    first = mcall.args[0] if mcall.args else kwarg(mcall, 'source')
-    rep.check(isinstance(first, ast.Name) and first.id == dm.positional[0], 'C13.FWD', dm.loc(mcall), 'minify(%s, ...)' % src(first),
-              'source passed positionally', 'the source handed to minify is not do_minify\'s source parameter', key='C13.FWD|source')
-    fn = kwarg(mcall, 'filename', 1)
-    rep.check(isinstance(fn, ast.Name) and fn.id == dm.positional[1], 'C13.FWD', dm.loc(mcall), 'filename=%s' % src(fn), 'filename forwarded',
-              'filename is not forwarded', key='C13.FWD|filename')
-    rep.floor('C13.FWD', 17)
+    modes = E.run_modes(model, rep.tier)
+    E.report(rep, 'C13.OUT', where, modes, ('payload', 'listing', 'channel', 'destination'), 'output', 'destinations receive the encoded answer or the untouched source, binary, no listing on the payload channel', None)
+    rep.floor('C13.OUT', 9)
 
-    # ---- ANN
-    # (the arms of the annotation options and the list splitting are decided semantically by C13.EVAL below)
-
-    # ---- SPLIT
-    for p in ('preserve_globals', 'preserve_locals'):
-        ss = [s for s in opt_specs if normalised(s.long, s.action)[0] == p]
-        if len(ss) != 1:
-            rep.violation('C13.SPLIT', pa.loc(), '--' + p.replace('_', '-'), 'flag missing')
-            continue
-        s = ss[0]
-        rep.check(s.action == 'append', 'C13.SPLIT', pa.loc(s.call), '%s action=%s' % (s.long, s.action), 'repeatable',
-                  'repeated %s would overwrite instead of accumulate' % s.long, key='C13.SPLIT|%s|action' % p)
-    rep.floor('C13.SPLIT', 2)
-
-    rep.rule('C13.EVAL', 'do_minify abstractly evaluated on namespaces: one option flipped, all annotation vectors, list spellings -> keywords of minify()')
-    run_eval(model, rep, A, opt_specs, ann_defaults, api_params)
-    run_val(model, rep, A, specs, mutex)
-    run_out(model, rep, A)
-    run_doc(model, rep, A, specs)
-
-
-def run_ann(model, rep, A, ann_calls, ann_defaults, argname, flag_of_dest):
-    dm = A.dm if hasattr(A, 'dm') else A.do_minify
-    F = A.facts[dm.qual]
-    seen_false_arm = seen_true_arm = False
-    for c in ann_calls:
-        facts = F.facts_at(c)
-        if facts is None:
-            continue
-        t = '%s.remove_annotations' % argname
-        off = ('%s is False' % t, True) in facts or (t, False) in facts
-        on = ('%s is False' % t, False) in facts or (t, True) in facts
-        where = dm.loc(c)
-        kws = {k.arg: k.value for k in c.keywords}
-        if c.args:
-            rep.violation('C13.ANN', where, src(c)[:80], 'positional arguments to RemoveAnnotationsOptions cannot be matched to sub-options by name')
-            continue
-        if off:
-            seen_false_arm = True
-            bad = [k for k in ann_defaults if not (isinstance(kws.get(k), ast.Constant) and kws[k].value is False)]
-            rep.check(not bad, 'C13.ANN', where, 'RemoveAnnotationsOptions(... all False) under --no-remove-annotations', 'all four sub-options False',
-                      '--no-remove-annotations must disable every annotation removal, but %s is not False' % bad, key='C13.ANN|off-arm')
-        elif on:
-            seen_true_arm = True
-            for k in sorted(ann_defaults):
-                v = kws.get(k)
-                ok = isinstance(v, ast.Attribute) and isinstance(v.value, ast.Name) and v.value.id == argname and v.attr in flag_of_dest and \
-                    __import__('pmstatic.props.c13', fromlist=['x']).normalised(flag_of_dest[v.attr].long, flag_of_dest[v.attr].action)[0] == k
-                rep.check(ok, 'C13.ANN', where, '%s=%s' % (k, src(v)), 'fed by its own flag', 'sub-option %s is fed by %s' % (k, src(v)), key='C13.ANN|on-arm|' + k)
-        else:
-            rep.violation('C13.ANN', where, src(c)[:80], 'options object built outside the remove_annotations arms', key='C13.ANN|stray')
-    rep.check(seen_false_arm and seen_true_arm, 'C13.ANN', dm.loc(), 'both arms present', 'off-arm and on-arm found',
-              'arm for %s missing' % ('--no-remove-annotations' if not seen_false_arm else 'default'), key='C13.ANN|arms')
-    rep.floor('C13.ANN', 6)
-
-
-# ---------------------------------------------------------------------- VAL (abstract evaluation of the validation block)
-def run_val(model, rep, A, specs, mutex):
-    pa = A.parse_args
-    # statements after `args = parser.parse_args()`
-    body = pa.node.body
-    idx = None
-    argvar = None
-    for i, s in enumerate(body):
-        if isinstance(s, ast.Assign) and isinstance(s.value, ast.Call) and isinstance(s.value.func, ast.Attribute) and s.value.func.attr == 'parse_args' \
-                and isinstance(s.targets[0], ast.Name):
-            idx = i
-            argvar = s.targets[0].id
-    if idx is None:
-        raise AnalysisError('parse_args() call not found at the top level of parse_args')
-    tail = body[idx + 1:]
-    # mutual exclusion of --output / --in-place
-    groups = [g for g, ss in mutex.items() if {s.dest for s in ss} >= {'output', 'in_place'}]
-    rep.check(bool(groups), 'C13.VAL', pa.loc(), '--output/--in-place', 'declared in one mutually exclusive group',
-              '--output and --in-place are not mutually exclusive', key='C13.VAL|mutex')
-
-    def spec_invalid(path, in_place, rca, ra, isdir):
-        return ('-' in path and len(path) != 1) or ('-' in path and in_place) or (len(path) > 1 and not in_place) or \
-            (len(path) == 1 and isdir and not in_place) or (rca and not ra)
-
-    shapes = [['-'], ['-', 'a.py'], ['a.py', '-'], ['a.py'], ['a.py', 'b.py'], ['d']]
-    n = 0
-    bad = []
-    for path in shapes:
-        for in_place in (False, True):
-            for output in (None, 'out.py'):
-                if in_place and output:
-                    continue
-                for rca in (False, True):
-                    for ra in (False, True):
-                        isdir = path == ['d']
-                        hooks = {'os.path.isdir': lambda I, e, args, kw, env, _d=isdir: _d and args[0] == 'd',
-                                 'sys.stderr.write': lambda I, e, args, kw, env: None}
-                        I = Interp(model, MAIN, hooks)
-                        ns = Obj('Namespace', closed=True, path=list(path), in_place=in_place, output=output, remove_class_attribute_annotations=rca, remove_annotations=ra)
-                        for s in specs:
-                            if s.dest and s.dest not in ns.attrs:
-                                ns.attrs[s.dest] = TOP
-                        res = I.explore(lambda: I.block(tail, {argvar: ns}))
-                        n += 1
-                        outs = {r[0][0] + (':' + str(r[0][1]) if r[0][0] == 'exit' else '') for r in res}
-                        inv = spec_invalid(path, in_place, rca, ra, isdir)
-                        if any(o == 'abort' or o == 'raise' for o in [r[0][0] for r in res]):
-                            raise AnalysisError('UNDECIDED: validation block of parse_args cannot be evaluated for %r: %s' % (path, res[0][0]))
-                        if inv:
-                            ok = all(r[0][0] == 'exit' and r[0][1] not in (0, None, TOP) for r in res)
-                        else:
-                            ok = all(r[0][0] == 'return' for r in res)
-                        if not ok:
-                            bad.append((path, in_place, output, rca, ra, sorted(outs), inv))
-    for b in bad[:6]:
-        rep.violation('C13.VAL', pa.loc(tail[0]) if tail else pa.loc(), 'path=%r in_place=%r output=%r class_attr=%r annotations=%r' % b[:5],
-                      '%s combination %s' % ('invalid' if b[6] else 'valid', 'is not rejected with a non-zero exit: ' + str(b[5]) if b[6] else 'is rejected: ' + str(b[5])),
-                      key='C13.VAL|state|%r' % (b[:5],))
-    if not bad:
-        rep.ok('C13.VAL', pa.loc(tail[0]) if tail else pa.loc(), 'validation block x %d argument shapes' % n, 'invalid shapes exit non-zero, valid shapes return', cells=n, key='C13.VAL|enum')
-    # ordering in main: parse_args() dominates every write/open
-    mf = A.facts[A.main.qual]
-    pa_name = None
-    for c in calls(A.main.node):
-        if isinstance(c.func, ast.Name) and model.resolve_name(MAIN, c.func.id) == pa.qual:
-            pa_name = c.func.id
-    if pa_name is None:
-        rep.violation('C13.VAL', A.main.loc(), 'main', 'main() does not call parse_args()', key='C13.VAL|order')
-    else:
-        late = []
-        for s in A.lifted_sinks():
-            if s.func is A.main and ('<did:%s>' % pa_name, True) not in s.facts:
-                late.append(s)
-        for (g, c, path, mode, f) in A.lifted_opens():
-            if g is A.main and ('<did:%s>' % pa_name, True) not in f:
-                late.append(c)
-        rep.check(not late, 'C13.VAL', A.main.loc(), 'parse_args() dominates every write and open in main', '%d sinks checked' % (len(A.lifted_sinks())),
-                  'something is written before arguments are validated', key='C13.VAL|order')
-    rep.floor('C13.VAL', 3)
-
-
-def run_out(model, rep, A):
-    dm = A.do_minify
-    for snk in A.lifted_sinks():
-        fi = snk.func
-        where = fi.loc(snk.call)
-        tgt = src(snk.target) if snk.target is not None else snk.kind
-        in_handler = ('<caught:%s>' % NOT_BENEFICIAL, True) in snk.facts
-        key = 'C13.OUT|%s|%s|%s|%s' % (fi.name, src(snk.payload), tgt, 'handler' if in_handler else 'normal')
-        ok, kind, why = A.judge_sink(snk)
-        if ok is None:
-            listing_ok = any(p and ('output' in k or 'in_place' in k) for (k, p) in snk.facts if not k.startswith('<'))
-            rep.check(listing_ok and snk.kind == 'stdout-text', 'C13.OUT', where, src(snk.call), 'path listing only when stdout is not the output channel',
-                      'path listing can be mixed into minified output on stdout', key=key)
-            continue
-        if not ok:
-            rep.violation('C13.OUT', where, '%s -> %s' % (src(snk.call)[:60], tgt), why, key=key)
-            continue
-        binary = (snk.kind == 'stdout-bytes') or (snk.kind == 'file' and isinstance(snk.mode, str) and 'b' in snk.mode and any(ch in snk.mode for ch in 'wax'))
-        rep.check(binary, 'C13.OUT', where, '%s -> %s' % (src(snk.call)[:60], tgt), 'payload (%s) written through a binary channel' % kind,
-                  'payload is written through a text-mode channel (newline / encoding translation)', key=key)
-    # wrappers write exactly their parameter
-    for name, fi in A.stdout_wrappers.items():
-        ws = [c for c in calls(fi.node) if isinstance(c.func, ast.Attribute) and c.func.attr in ('write', 'writelines')]
-        rep.check(all(len(c.args) == 1 and isinstance(c.args[0], ast.Name) and c.args[0].id == fi.positional[0] for c in ws), 'C13.OUT', fi.loc(), name,
-                  'stdout helper writes exactly its argument', 'stdout helper writes something other than its argument', key='C13.OUT|wrapper|' + name)
-    # any function of __main__ that writes to stdout but is not a pure wrapper is inspected as a sink owner above; a helper that
-    # writes its parameter *and* something else is caught here
-    for q, fi in model.funcs.items():
-        if fi.module == MAIN and fi.name not in A.stdout_wrappers and fi.outer is None and len(fi.positional) == 1 and fi.name not in ('main', 'do_minify', 'parse_args', 'source_modules'):
-            ws = [c for c in calls(fi.node) if isinstance(c.func, ast.Attribute) and c.func.attr == 'write' and src(c.func.value).startswith('sys.stdout')]
-            if ws:
-                rep.violation('C13.OUT', fi.loc(), fi.name, 'stdout helper does not write exactly its argument', key='C13.OUT|wrapper|' + fi.name)
-    # the returned payload of do_minify is the utf-8 encoding of the minify result
-    F = A.facts[dm.qual]
-    defs = A.defs[dm.qual]
-    mcall = A.minify_call()
-    for (ret, facts) in F.returns:
-        e = ret.value
-        if isinstance(e, ast.Name) and len(defs.get(e.id, [])) == 1 and isinstance(defs[e.id][0], ast.AST):
-            e = defs[e.id][0]
-        ok = isinstance(e, ast.Call) and isinstance(e.func, ast.Attribute) and e.func.attr == 'encode'
-        enc = None
-        if ok:
-            a = e.args[0] if e.args else kwarg(e, 'encoding')
-            enc = a.value if isinstance(a, ast.Constant) else ('utf-8' if a is None else None)
-            r = e.func.value
-            if isinstance(r, ast.Name):
-                rd = defs.get(r.id, [])
-                ok = len(rd) == 1 and rd[0] is mcall
-            else:
-                ok = r is mcall
-            errs = kwarg(e, 'errors', 1)
-            if errs is not None:
-                ok = False
-        ok = ok and isinstance(enc, str) and enc.lower().replace('_', '-') in ('utf-8', 'utf8')
-        rep.check(ok, 'C13.OUT', dm.loc(ret), 'return ' + src(ret.value), 'minify(...).encode("utf-8")', 'returned payload is not the strict UTF-8 encoding of the minify() result: ' + src(e),
-                  key='C13.OUT|return|' + src(ret.value))
-    rep.floor('C13.OUT', 4)
-
-
-def run_doc(model, rep, A, specs):
-    flags = set()
-    for s in specs:
-        flags.update(s.flags)
+    # ---- DOC
+    parser = E.the_parser(model)
+    known = set()
+    for a in parser._actions:
+        known.update(a.option_strings)
     n = 0
     root = model.root
     for path in sorted(glob.glob(os.path.join(root, 'docs', 'source', 'transforms', '*.rst')) + glob.glob(os.path.join(root, 'docs', 'source', 'command_usage.rst'))):
@@ -575,114 +81,5 @@ def run_doc(model, rep, A, specs):
             for mm in re.finditer(r'``(--[A-Za-z0-9_-]+)``', line):
                 fl = mm.group(1)
                 n += 1
-                rep.check(fl in flags, 'C13.DOC', '%s:%d' % (rel, i), fl, 'flag exists', 'documented flag %s does not exist in the parser' % fl, key='C13.DOC|%s|%s' % (os.path.basename(rel), fl))
+                rep.check(fl in known, 'C13.DOC', '%s:%d' % (rel, i), fl, 'flag exists', 'documented flag %s does not exist in the parser' % fl, key='C13.DOC|%s|%s' % (os.path.basename(rel), fl))
     rep.floor('C13.DOC', 15)
-
-
-# ---------------------------------------------------------------------- EVAL: do_minify abstractly evaluated on argparse namespaces
-def run_eval(model, rep, A, opt_specs, ann_defaults, api_params):
-    """For namespaces that differ from the defaults in one option (and for all annotation sub-option vectors, and for several
-    spellings of the preserve lists) the keyword arguments handed to minify() must be the documented meaning of the flags."""
-    dm = A.do_minify
-    by_name = {normalised(s.long, s.action)[0]: s for s in opt_specs}
-    parser_defaults = {}
-    specs, mutex = extract_specs(A)
-    base = vars(build_parser(specs, mutex).parse_args(['x.py']))
-
-    def evaluate(ns_values):
-        captured = {}
-
-        def minify_hook(I, e, args, kw, env):
-            captured['args'] = args
-            captured['kw'] = kw
-            return 'minified text'
-        hooks = {'minify': minify_hook, 'os.environ.get': lambda I, e, args, kw, env: '1'}
-        I = Interp(model, MAIN, hooks)
-        ns = Obj('Namespace', closed=True, **ns_values)
-        res = I.explore(lambda: I.call_function(dm.qual, [b'source bytes', 'file.py', ns]))
-        outs = {r[0][0] for r in res}
-        if outs == {'raise'}:
-            return {'raise': res[0][0][1]}
-        if outs != {'return'} or 'kw' not in captured:
-            raise AnalysisError('UNDECIDED: do_minify on a namespace -> %s %s' % ([r[0] for r in res][:2], res[0][2][:3]))
-        return captured
-
-    def expected(ns_values):
-        want = {}
-        for p in api_params:
-            if p == 'remove_annotations':
-                continue
-            s = by_name.get(p)
-            if s is None:
-                continue
-            v = ns_values[s.dest]
-            if s.action == 'append':
-                names = []
-                for entry in (v or []):
-                    names += [n.strip() for n in entry.split(',') if n.strip()]
-                v = names
-            want[p] = v
-        ann = {}
-        for k in ann_defaults:
-            s = by_name.get(k)
-            ann[k] = bool(ns_values[by_name['remove_annotations'].dest]) and bool(ns_values[s.dest]) if s is not None else None
-        return want, ann
-
-    def compare(label, ns_values):
-        cap = evaluate(ns_values)
-        if 'raise' in cap:
-            rep.violation('C13.EVAL', dm.loc(), label, 'do_minify raises %s on the namespace the argument parser produces for these flags' % cap['raise'], key='C13.EVAL|' + label)
-            return
-        want, ann = expected(ns_values)
-        kw = cap['kw']
-        problems = []
-        for p, v in want.items():
-            got = kw.get(p, '<missing>')
-            if isinstance(v, list):
-                if got is None and v == []:
-                    continue
-                if not isinstance(got, list) or [x for x in got if x] != v:
-                    problems.append('%s=%r (documented meaning: %r)' % (p, got, v))
-            elif got is not v:
-                problems.append('%s=%r (documented meaning: %r)' % (p, got, v))
-        ra = kw.get('remove_annotations')
-        if isinstance(ra, Obj):
-            for k, v in ann.items():
-                got = ra.attrs.get(k)
-                if bool(got) is not v or got is TOP:
-                    problems.append('remove_annotations.%s=%r (documented meaning: %r)' % (k, got, v))
-        elif isinstance(ra, bool):
-            for k, v in ann.items():
-                if ra is not v:
-                    problems.append('remove_annotations=%r but %s should be %r' % (ra, k, v))
-        else:
-            problems.append('remove_annotations=%r' % (ra,))
-        rep.check(not problems, 'C13.EVAL', dm.loc(), label, 'minify() receives the documented meaning of the flags', '; '.join(problems[:3]), key='C13.EVAL|' + label)
-
-    n = 0
-    compare('no flags', dict(base))
-    for s in opt_specs:
-        if s.action == 'append':
-            continue
-        v = dict(base)
-        v[s.dest] = not base[s.dest]
-        if normalised(s.long, s.action)[0] == 'remove_class_attribute_annotations':
-            pass
-        compare(s.long, v)
-    subs = [by_name[k] for k in sorted(ann_defaults) if k in by_name]
-    for master in (True, False):
-        for bits in itertools.product((True, False), repeat=len(subs)):
-            v = dict(base)
-            v[by_name['remove_annotations'].dest] = master
-            for s, b in zip(subs, bits):
-                v[s.dest] = b
-            compare('annotations: master=%s %s' % (master, ','.join('%s=%s' % (s.dest.replace('remove_', '').replace('_annotations', ''), b) for s, b in zip(subs, bits))), v)
-    for p in ('preserve_globals', 'preserve_locals'):
-        s = by_name.get(p)
-        if s is None:
-            continue
-        for spelling in (None, ['a'], ['a,b'], ['a, b', 'c'], ['a,,b'], [' a ,b ', 'c,d'], ['a', 'b', 'c']):
-            v = dict(base)
-            v[s.dest] = spelling
-            compare('%s %r' % (s.long, spelling), v)
-    rep.floor('C13.EVAL', 60)
